@@ -316,6 +316,10 @@ var ErrUnreachable = errors.New("fakecluster: broker unreachable")
 
 // Dial has the signature of kafka.Transport.Dial.
 func (c *Cluster) Dial(ctx context.Context, network, addr string) (net.Conn, error) {
+	// like a real dialer: the address has to be host:port, an IPv6 literal host in brackets
+	if _, _, err := net.SplitHostPort(addr); err != nil {
+		return nil, fmt.Errorf("%w: %v", ErrUnreachable, err)
+	}
 	c.mu.Lock()
 	var br *Broker
 	for _, b := range c.Brokers {
